@@ -128,6 +128,53 @@ class Graph:
         return out
 
 
+def same_category(a, b):
+    """model and category byte agree (VTx / VTe / VTp ..., 6Sa / 6Sp ...)"""
+    return a["m"][:2] == b["m"][:2]
+
+
+def pair_histories(graph, n, rng, same=lambda a, b: a["m"] == b["m"]):
+    """Two-step cover: an accepted transition followed by a second event of the same kind (by default the same
+    mnemonic, any emitter and arguments) from the state it leads to.  The one-transition cover reaches every
+    source state by a shortest path, which almost never contains two events of the same kind in a row; whatever
+    an implementation remembers from one event to the next of that kind is only exercised by such pairs."""
+    out = []
+    for t1 in graph.trans:
+        if not (t1["ok"] and not t1["un"]) or t1["src"] not in graph.path:
+            continue
+        for t2 in graph.out.get(t1["dst"], []):
+            if t2["un"] or not same(t1["ev"], t2["ev"]):
+                continue
+            pre = graph.path[t1["src"]] + [t1["ev"], t2["ev"]]
+            if t2["ok"]:
+                out.append(("pair-accept", pre + (graph.compl.get(t2["dst"]) or []), t2, t1))
+            else:
+                out.append(("pair-reject", pre + (graph.compl.get(t1["dst"]) or []), t2, t1))
+    groups = {}
+    for x in out:
+        key = (x[0], json.dumps(x[3]["ev"], sort_keys=True), json.dumps(x[2]["ev"], sort_keys=True))
+        groups.setdefault(key, []).append(x)
+    keys = sorted(groups)
+    rng.shuffle(keys)
+    sel = []
+    rnd = 0
+    while len(sel) < n:
+        added = False
+        for k in keys:
+            g = groups[k]
+            if rnd == 0:
+                rng.shuffle(g)
+            if rnd < len(g):
+                sel.append(g[rnd][:3])
+                added = True
+                if len(sel) >= n:
+                    break
+        if not added:
+            break
+        rnd += 1
+    return sel
+
+
 def _stratified(items, n, rng):
     """Sample n histories so that every stratum (event, thread-local context of the source state, kind)
     is represented before any stratum gets a second member."""
@@ -343,11 +390,13 @@ def sys_with_rank(system):
 
 
 def conformance(ck, bdir, graph, tier, limit_quick=3000, limit_thorough=None, lint=True,
-                label="", extra_histories=None):
+                label="", extra_histories=None, pairs=0, pair_same=None):
     rng = random.Random(core.seed())
     calibrate_types(bdir)
     system = sys_with_rank(graph.system)
     hs = graph.histories(limit=limit_quick if tier == "quick" else limit_thorough, rng=rng)
+    if pairs:
+        hs += pair_histories(graph, pairs, rng, **({"same": pair_same} if pair_same else {}))
     if extra_histories:
         hs += [("extra", ev, None) for ev in extra_histories]
 
